@@ -322,11 +322,11 @@ var _ = strings.Contains
 func init() {
 	tail := "; each problem is solved/optimised with CuttingPlanes off and on; the verif hook hands every constraint learned by the cutting-planes analysis to the harness, which evaluates it on all models of the original problem (n<=20); asserted: same verdict and optimum as without the strategy and as brute force, valid model, no panic, step watchdog (10^6 loop iterations; a failure for n<=12); non-trivial = >=1 constraint learned by the cutting-planes analysis"
 	vf.Register(
-		vf.Sub[Case]{Name: "cnf", Quick: 1500, Thorough: 25000, Gen: genCNF, Check: check, Floor: 0.3, StepLimitFails: stepFails,
+		vf.Sub[Case]{Name: "cnf", Quick: 1200, Thorough: 25000, Gen: genCNF, Check: check, Floor: 0.3, StepLimitFails: stepFails,
 			Rule: "domain A, pure CNF: small formulas with odd clause shapes, parity/pigeonhole formulas, threshold 3-SAT n in 10..40, clique-rich formulas (what DetectAtMostOne rewrites); with/without prior DetectAtMostOne" + tail},
-		vf.Sub[Case]{Name: "card", Quick: 5000, Thorough: 100000, Gen: genPB("card"), Check: check, Floor: 0.1, StepLimitFails: stepFails,
+		vf.Sub[Case]{Name: "card", Quick: 10000, Thorough: 100000, Gen: genPB("card"), Check: check, Floor: 0.1, StepLimitFails: stepFails,
 			Rule: "domain B, cardinality problems via ParseCardConstrs: uniform, dense, pigeonhole with at-most-one constraints; optional cost function; with/without prior DetectAtMostOne" + tail},
-		vf.Sub[Case]{Name: "pb", Quick: 5000, Thorough: 100000, Gen: genPB("pb"), Check: check, Floor: 0.1, StepLimitFails: stepFails,
+		vf.Sub[Case]{Name: "pb", Quick: 10000, Thorough: 100000, Gen: genPB("pb"), Check: check, Floor: 0.1, StepLimitFails: stepFails,
 			Rule: "domain B, PB problems via ParsePBConstrs: uniform, pigeonhole, set cover with cost function; with/without prior DetectAtMostOne" + tail},
 	)
 }
